@@ -10,6 +10,7 @@
 //!   PC:<guid>:<proto>               add_pointcloud; proto = name=type,... (may be empty)
 //!   IMG:<guid>                      add_image
 //!   FIN[:...]                       finalize (anything after FIN: is for the model side and ignored here)
+//!   FINX                            finalize_customized_xml(Ok) (the model's Finalize stands for both entry points)
 //! Point cloud writer (between PC and PDROP):
 //!   PT:<v,v,...>                    add_point          PFIN  finalize          PDROP  end of the borrow
 //!   PSET:<field>:<args>             set_* ; fields: name desc vendor model serial hw sw fw (str|-),
@@ -757,8 +758,9 @@ fn run_wapi(toks: &[&str]) -> String {
                         }
                     }
                 }
-                "FIN" => {
-                    let r = guard(|| w.finalize());
+                "FIN" | "FINX" => {
+                    // FINX: the second public entry point, with the identity transformer
+                    let r = if parts[0] == "FINX" { guard(|| w.finalize_customized_xml(Ok)) } else { guard(|| w.finalize()) };
                     match &r {
                         Some(Ok(())) => run.xmls.push(xml_from_device(&dev.snapshot())),
                         Some(Err(e)) => run.xmls.push(format!("!{}", err_name(e))),
